@@ -340,6 +340,7 @@ type liveRun struct {
 	ent      map[int]*entState
 	S        int
 	zvals    map[int]map[int]bool // zero-initialised variables: possible current values
+	detached map[int]bool         // entities whose earlier captured references may have been disconnected by damaged code
 	prLen    map[int]int          // print length of each type's instances at first observation
 	nLo, nHi map[int]int
 	instUp   bool
@@ -373,7 +374,7 @@ func (live) Execute(plan any, keep bool) *core.Result {
 	disk := core.NewSimDisk(files, hist)
 	disk.Rich, disk.Chunk, disk.Mute = p.Rich, p.Chunk, !keep
 	run := &liveRun{p: p, w: w, res: res, table: w.lineTable(), infra: map[string]bool{}, ent: map[int]*entState{},
-		zvals: map[int]map[int]bool{}, prLen: map[int]int{}, nLo: map[int]int{}, nHi: map[int]int{}, refsUp: map[string]bool{}, seen: map[string]int{}, hostFV: map[int]goatlang.Value{}}
+		zvals: map[int]map[int]bool{}, prLen: map[int]int{}, detached: map[int]bool{}, nLo: map[int]int{}, nHi: map[int]int{}, refsUp: map[string]bool{}, seen: map[string]int{}, hostFV: map[int]goatlang.Value{}}
 	for pk := range w.Pkgs {
 		for _, h := range w.entHeader(pk) {
 			run.infra[h] = true
@@ -481,6 +482,7 @@ func (run *liveRun) step(s *LStep, viaYield int) {
 		run.abs = append(run.abs, "ci")
 	case "captureRefs":
 		if _, err := run.h.Call("main.captureRefs", 0); err == nil {
+			run.detached = map[int]bool{}
 			for _, id := range run.w.FV {
 				run.refsUp[fmt.Sprintf("fv%d", id)] = true
 				// the host keeps a reference too (an embedding program caching a callback)
@@ -682,6 +684,12 @@ func (run *liveRun) analyse(al *activeLoad) *served {
 		text := string(rec.Data)
 		lines := strings.Split(text, "\n")
 		fileDamaged := !rec.Complete
+		if !strings.HasPrefix(text, strings.Join(run.w.entHeader(pkg), "\n")+"\n") {
+			// the package clause (and, in package main, the imports) must head the file: without
+			// it the declarations that follow belong to no package (seen in the thorough tier:
+			// a splice that cut exactly the header away)
+			fileDamaged = true
+		}
 		for li, line := range lines {
 			if li == len(lines)-1 && line == "" {
 				continue
@@ -800,6 +808,11 @@ func (run *liveRun) load(s *LStep, depth int) {
 	}
 	for id := range sv.damaged {
 		run.ent[id].unknown = true
+		// damaged text that runs is arbitrary code: it can store something else under an entity's
+		// name (seen: a splice `var I5 = F3= F3() - 3 + 5`), after which a reference captured
+		// earlier is no longer connected to the name; such references are not judged until they
+		// are captured again
+		run.detached[id] = true
 		changed++
 	}
 	// a variable initialised from a function takes the version that function has NOW (the
@@ -931,6 +944,10 @@ func (run *liveRun) obs(kind string, id int, val goatlang.Value) {
 	}
 	switch kind {
 	case "d", "fv", "bm", "sf", "im", "iv", "hv":
+		if run.detached[id] && kind != "d" && kind != "iv" && kind != "im" {
+			run.setObs++
+			return
+		}
 		st := run.ent[id]
 		if st == nil || st.unknown || run.depUnknown(id, 0) {
 			run.setObs++
@@ -949,6 +966,10 @@ func (run *liveRun) obs(kind string, id int, val goatlang.Value) {
 			run.fail(rule, kind, "%s of entity %d reports %d (version %d), but the versions it may have after the loads so far are %s", what, id, v, ver, st)
 		}
 	case "pc", "pf":
+		if run.detached[id] && kind == "pf" {
+			run.setObs++
+			return
+		}
 		st := run.ent[id]
 		e := run.w.ent(id)
 		if st == nil || e == nil || st.unknown {
